@@ -158,6 +158,7 @@ func runC11(a *A) {
 	a.Rule("shape/keyword-case", 3, func() { a.ruleKeywordCase() })
 	a.Rule("flow/no-state-between-list-items", 12, func() { a.ruleNoStateBetweenListItems("rsql") })
 	a.Rule("tables/clause-terminators", 12, func() { a.ruleClauseTerminators() })
+	a.Rule("term/caps-scale-with-input", 7, func() { a.ruleCapsScaleWithInput() })
 	a.Rule("shape/layout-and-case", 2, func() {
 		li := a.Method("rsql", "Lexer", "lookupIdent")
 		// the switch tag derives from strings.ToUpper/ToLower of the identifier parameter
@@ -609,4 +610,74 @@ func (a *A) tokenName(k *ssa.Const) string {
 		}
 	}
 	return fmt.Sprint(v)
+}
+
+// ruleCapsScaleWithInput: the clause loops guard against non-termination with an iteration counter.
+// Exceeding it returns an error that Parser.Parse treats as recoverable — the clause is dropped and the
+// statement accepted. A constant cap therefore silently discards any clause with more tokens than the
+// cap (a WHERE with 26 OR-ed comparisons). Every comparison "counter > cap" in a Parser method must
+// use a cap derived from the length of the input.
+func (a *A) ruleCapsScaleWithInput() int {
+	n := 0
+	P := a.Named("rsql", "Parser")
+	inputF := a.FieldOf(P, "input")
+	for _, fn := range a.ModFuncs {
+		if fn.Signature.Recv() == nil || !isNamedType(fn.Signature.Recv().Type(), P.Obj().Pkg().Path(), "Parser") {
+			continue
+		}
+		loops := sccLoops(fn)
+		allInstrs(fn, func(in ssa.Instruction) {
+			bo, ok := in.(*ssa.BinOp)
+			if !ok || bo.Op != token.GTR && bo.Op != token.GEQ || !isIntType(bo.X.Type()) {
+				return
+			}
+			// X is a loop counter of a loop that contains this comparison
+			counter := false
+			for _, l := range loops {
+				if l.Blocks[bo.Block()] && l.progressValue(bo.X) {
+					counter = true
+				}
+			}
+			if !counter {
+				return
+			}
+			// only caps whose overflow leaves the function with an error
+			iff, isIf := bo.Block().Instrs[len(bo.Block().Instrs)-1].(*ssa.If)
+			if !isIf || iff.Cond != ssa.Value(bo) {
+				return
+			}
+			retErr := false
+			for _, in2 := range bo.Block().Succs[0].Instrs {
+				if r, ok := in2.(*ssa.Return); ok && len(r.Results) > 0 && !isNilConst(r.Results[len(r.Results)-1]) {
+					retErr = true
+				}
+			}
+			if !retErr {
+				return
+			}
+			n++
+			if why, ok := capReviewed[fname(fn)]; ok {
+				a.Ok(fname(fn)+"#cap-scales", bo.Pos(), "reviewed: %s", why)
+				return
+			}
+			scales := false
+			for x := range backwardSlice(bo.Y, 6) {
+				if c, ok := x.(*ssa.Call); ok {
+					if cc, ok := isBuiltinCall(c, "len"); ok {
+						if t := TermOf(cc.Args[0], nil); t.Kind == "field" && t.Field == inputF {
+							scales = true
+						}
+					}
+				}
+			}
+			a.Check(scales, fname(fn)+"#cap-scales", bo.Pos(), "the iteration cap grows with the length of the statement",
+				"the loop gives up after "+TermOf(bo.Y, nil).String()+" iterations with an error that Parse recovers from: a clause with more tokens is silently dropped and the statement accepted without it")
+		})
+	}
+	return n
+}
+
+// capReviewed: constant caps that are documented limits rather than loop guards.
+var capReviewed = map[string]string{
+	"(*rsql.Parser).parseSelect": "MaxSelectFields (300) is the documented limit on the number of SELECT items, counted per item, not per token",
 }
